@@ -75,7 +75,7 @@ func c17Opts(t *rapid.T) Opts {
 	if o.LineMarkers {
 		o.Path = rapid.SampledFrom([]string{"f.pory", `data\maps\Route1\scripts.pory`, "a%b/c.pory"}).Draw(t, "path")
 	}
-	switch rapid.IntRange(0, 5).Draw(t, "fontopt") {
+	switch rapid.IntRange(0, 7).Draw(t, "fontopt") {
 	case 0:
 		o.FontID = "bogus" // error lists the font ids
 	case 1:
@@ -86,6 +86,12 @@ func c17Opts(t *rapid.T) Opts {
 		}
 	case 2:
 		o.MaxLen = 40
+	case 3: // the default font has no numLines (a documented fallback applies - every time)
+		o.FontPath = ""
+		o.FontJSON = `{"defaultFontId":"A","fonts":{"A":{"widths":{"default":6," ":3},"maxLineLength":60,"cursorOverlapWidth":4},"1_latin_rse":{"widths":{"default":6," ":3},"maxLineLength":80},"1_latin_frlg":{"widths":{"default":5," ":3},"maxLineLength":70}}}`
+	case 4: // no default font id, fonts of different metrics: whatever happens must happen every time
+		o.FontPath = ""
+		o.FontJSON = `{"fonts":{"N":{"widths":{"default":2," ":1},"maxLineLength":60,"numLines":2},"W":{"widths":{"default":9," ":4},"maxLineLength":60,"numLines":2},"X":{"widths":{"default":14," ":6},"maxLineLength":60,"numLines":3}}}`
 	}
 	if rapid.Bool().Draw(t, "sw") {
 		o.Switches = map[string]string{"V": "A", "W": "B"}
